@@ -161,12 +161,175 @@ def _s4(program, res):
         res.ok("C08-S4", "select_columns re-orders the sub-step's terms by the declared selection")
     else:
         res.fail_at("C08-S4", sc, "selection-order", "select_columns_to_near_sql no longer orders the terms by column_selection")
-    em = sm.methods["nearsqlunary_to_sql_str_list_"]
-    t = unparse(em.node)
-    if "terms_strs = [self.enc_term_(k, terms=terms) for k in columns]" in t:
-        res.ok("C08-S4", "the emitter selects exactly the requested columns, in order")
-    else:
-        res.fail_at("C08-S4", em, "emitter-columns", "the unary emitter no longer lists exactly the requested columns")
+    # `SELECT *` may stand for the select list only when no columns were requested: enumerate the emitters' paths and evaluate every
+    # branch condition under the assumption "columns is a non-empty list" — a path that ends with the star list must be infeasible then
+    n_star = 0
+    for em in sm.methods.values():
+        if not (em.name.startswith("nearsql") and em.name.endswith("_to_sql_str_list_") and "columns" in em.params()):
+            continue
+        stars = [st for st in ast.walk(em.node) if isinstance(st, ast.Assign) and isinstance(st.value, ast.List) and len(st.value.elts) == 1
+                 and isinstance(st.value.elts[0], ast.Constant) and st.value.elts[0].value == "*" and isinstance(st.targets[0], ast.Name)]
+        if not stars:
+            continue
+        res.analysed(em)
+        g = cfgmod.build(em.node)
+        tvars = {st.targets[0].id for st in stars}
+        bad_path = None
+        n_paths = 0
+        for path in g.paths(limit=20000):
+            n_paths += 1
+            last = {}
+            requested_holds = True   # `columns` still is the caller's value
+            feasible = True          # ... under the assumption that the caller requested columns
+            derived_from_columns = set()
+            for (nid, label) in path:
+                node = g.nodes[nid]
+                st = node.stmt
+                if node.kind == "test" and node.cond is not None and isinstance(label, bool):
+                    v = _eval_requested(node.cond, requested_holds, derived_from_columns)
+                    if v is not None and v != label:
+                        feasible = False
+                        break
+                if isinstance(st, ast.Assign) and len(st.targets) == 1 and isinstance(st.targets[0], ast.Name) and node.kind == "stmt":
+                    tgt = st.targets[0].id
+                    if tgt == "columns":
+                        requested_holds = False
+                    if tgt in tvars:
+                        last[tgt] = st
+                        # a list built by iterating the requested columns is as long as they are
+                        if isinstance(st.value, ast.ListComp) and unparse(st.value.generators[0].iter) == "columns" and not st.value.generators[0].ifs and requested_holds:
+                            derived_from_columns.add(tgt)
+                        else:
+                            derived_from_columns.discard(tgt)
+            if not feasible:
+                continue
+            enders = [st for st in last.values() if st in stars]
+            if enders and g.nodes[path[-1][0]].kind != "raise":
+                bad_path = (enders[0], path)
+                break
+        n_star += 1
+        if bad_path is None:
+            res.ok("C08-S4", f"{em.name}: `SELECT *` is emitted only when the caller requested no columns ({n_paths} paths)")
+        else:
+            res.fail_at("C08-S4", em, "star-although-columns-requested",
+                        f"{em.name} can emit `SELECT *` although the caller asked for specific columns (a step without terms of its own): order_rows directly over a table "
+                        f"description returns every column of the real table, in the table's order — td(x,y,z).order_rows(['x'], limit=2) over a table q,z,x,y returns q,z,x,y, "
+                        f"and td.select_columns(['z','y','x']).order_rows(['x']) returns x,y,z", bad_path[0])
+    if n_star < 2:
+        raise AnalysisError(f"C08-S4: only {n_star} emitters with a `*` select list found")
+
+
+def _eval_requested(cond, requested_holds, nonempty_lists):
+    """three-valued evaluation of a branch condition under the assumption `columns` is a non-empty list (None = unknown)"""
+    if isinstance(cond, ast.BoolOp):
+        vals = [_eval_requested(v, requested_holds, nonempty_lists) for v in cond.values]
+        if isinstance(cond.op, ast.Or):
+            return True if any(v is True for v in vals) else (False if all(v is False for v in vals) else None)
+        return False if any(v is False for v in vals) else (True if all(v is True for v in vals) else None)
+    if isinstance(cond, ast.UnaryOp) and isinstance(cond.op, ast.Not):
+        v = _eval_requested(cond.operand, requested_holds, nonempty_lists)
+        return None if v is None else (not v)
+    if isinstance(cond, ast.Compare) and len(cond.ops) == 1:
+        l, op, r = cond.left, cond.ops[0], cond.comparators[0]
+        if isinstance(l, ast.Name) and l.id == "columns" and isinstance(r, ast.Constant) and r.value is None and requested_holds:
+            return False if isinstance(op, ast.Is) else (True if isinstance(op, ast.IsNot) else None)
+        if isinstance(l, ast.Call) and dotted_name(l.func) == "len" and len(l.args) == 1 and isinstance(l.args[0], ast.Name) and isinstance(r, ast.Constant) \
+                and isinstance(r.value, int):
+            nm = l.args[0].id
+            if (nm == "columns" and requested_holds) or nm in nonempty_lists:
+                # len >= 1
+                k = r.value
+                if isinstance(op, ast.Lt):
+                    return False if k <= 1 else None
+                if isinstance(op, ast.LtE):
+                    return False if k <= 0 else None
+                if isinstance(op, ast.Gt):
+                    return True if k <= 0 else None
+                if isinstance(op, ast.GtE):
+                    return True if k <= 1 else None
+                if isinstance(op, ast.Eq):
+                    return False if k <= 0 else None
+                if isinstance(op, ast.NotEq):
+                    return True if k <= 0 else None
+    return None
+
+
+def _s4b_inplace_narrowing(program, res):
+    """select_columns / drop_columns narrow the *sub-step's* select list in place and return the sub-step.  A raw step (user SQL,
+    record conversion) has no select list of its own (terms is None) and its emitter reads neither terms nor columns: for it the
+    narrowing has to be a select of its own around the raw step."""
+    sm = program.cls("sql_model", "SQLModel")
+    n = 0
+    for m in sm.methods.values():
+        if not m.name.endswith("_to_near_sql"):
+            continue
+        subs = [st.targets[0].id for st in ast.walk(m.node) if isinstance(st, ast.Assign) and len(st.targets) == 1 and isinstance(st.targets[0], ast.Name)
+                and isinstance(st.value, ast.Call) and isinstance(st.value.func, ast.Attribute) and st.value.func.attr == "to_near_sql_implementation_"]
+        for sub in subs:
+            stores = [st for st in ast.walk(m.node) if isinstance(st, ast.Assign) and unparse(st.targets[0]) == f"{sub}.terms"]
+            returns_sub = any(isinstance(r, ast.Return) and isinstance(r.value, ast.Name) and r.value.id == sub for r in ast.walk(m.node))
+            if not (stores and returns_sub):
+                continue
+            n += 1
+            res.analysed(m)
+            g = cfgmod.build(m.node)
+            # a branch on `<sub>.terms is None` whose None side returns a newly constructed step
+            handled = False
+            for t in g.stmt_nodes(("test",)):
+                c = t.cond
+                if not (isinstance(c, ast.Compare) and unparse(c.left) == f"{sub}.terms" and isinstance(c.comparators[0], ast.Constant) and c.comparators[0].value is None):
+                    continue
+                if not isinstance(t.stmt, ast.If):
+                    continue
+                none_label = isinstance(c.ops[0], ast.Is)
+                arm = t.stmt.body if none_label else t.stmt.orelse
+                if any(isinstance(r, ast.Return) and isinstance(r.value, (ast.Call, ast.Name)) and not (isinstance(r.value, ast.Name) and r.value.id == sub)
+                       for a in arm for r in ast.walk(a)):
+                    handled = True
+            # ... or every store happens only for a sub-step known to be a selecting step (isinstance(sub, NearSQLUnaryStep))
+            if not handled and all(any(lab is True and f"isinstance({sub}," in unparse(b.cond).replace(" ", "").replace("\n", "") and "UnaryStep" in unparse(b.cond)
+                                       for b, lab in g.lexical_guards(g.containing_node(st))) for st in stores):
+                handled = True
+            if handled:
+                res.ok("C08-S4", f"{m.name}: a sub-step without a select list of its own is wrapped in a selecting step")
+            else:
+                res.fail_at("C08-S4", m, f"narrowing-lost-on-raw-sub-step:{m.name}",
+                            f"{m.name} narrows `{sub}.terms` in place and returns the sub-step; a raw sub-step (SQLNode, convert_records: terms is None, emitter ignores terms and "
+                            f"columns) keeps all its columns — SQLNode(...).select_columns(['b','id']) returns id,a,b on SQLite (Pandas: b,id), and drop_columns fails on it", stores[0])
+    if n < 2:
+        raise AnalysisError(f"C08-S4: only {n} in-place narrowing generators found (select_columns, drop_columns expected)")
+
+
+def _s6_map_columns_order(program, res):
+    """map_columns deletes *input* columns and renames others; the new names may re-use a deleted name ({'x': 'y', 'y': None}: "replace y by x").
+    The executors must take the deletions out before they rename — afterwards the deleted name also names the renamed column."""
+    for (mod, cls, frame_cols) in (("pandas_base", "PandasModelBase", "columns"), ("polars_model", "PolarsModel", "columns")):
+        m = program.method(mod, cls, "_map_columns_step", inherited=False)
+        res.analysed(m)
+        g = cfgmod.build(m.node)
+        op_param = [p for p in m.params() if p != "self"][0]
+        renames = [n for n in g.stmt_nodes(("stmt", "return")) if any(isinstance(c, ast.Call) and isinstance(c.func, ast.Attribute) and c.func.attr == "rename"
+                                                                     and f"{op_param}.column_remapping" in unparse(c) for c in ast.walk(n.stmt))]
+        if not renames:
+            if f"{op_param}.column_remapping" in unparse(m.node):
+                raise AnalysisError(f"{cls}._map_columns_step: {op_param}.column_remapping is used, but not in a recognised rename call")
+            res.fail_at("C08-S6", m, "remapping-not-applied", f"{cls}._map_columns_step never reads {op_param}.column_remapping: renamed columns keep their old names, "
+                        f"so the result does not have the declared columns")
+            continue
+        # where the deletions are taken out: a statement that mentions op.column_deletions and builds / selects a frame
+        dels = [n for n in g.stmt_nodes(("stmt", "return")) if f"{op_param}.column_deletions" in unparse(n.stmt) and not isinstance(n.stmt, ast.If)
+                and any(isinstance(c, (ast.ListComp, ast.Call)) for c in ast.walk(n.stmt))]
+        after = [n for n in dels if any(n.id in g.reachable_from(r.id) for r in renames)]
+        before = [n for n in dels if n not in after]
+        # selecting the declared result columns after the rename is fine when nothing can clash: that needs the deletions out first
+        if before:
+            res.ok("C08-S6", f"{cls}._map_columns_step removes the deleted input columns before renaming")
+        else:
+            how = "filters the renamed frame by the deleted names" if after else "renames first and relies on a later selection of the result columns"
+            res.fail_at("C08-S6", m, "rename-before-delete",
+                        f"{cls}._map_columns_step {how}: with map_columns({{'x': 'y', 'y': None}}) the rename makes a second column called y "
+                        f"(Pandas: the deletion then removes both, the declared column y is missing; Polars: rename raises DuplicateError), SQL returns g, y as declared",
+                        renames[0].stmt)
 
 
 def _s5_declared_order(program, res):
@@ -232,5 +395,8 @@ def run(program, res, tier):
     _s2(program, res)
     c16.twin_cleanup_rule(program, res, rule="C08-S3")
     _s4(program, res)
+    _s4b_inplace_narrowing(program, res)
     res.rule("C08-S5", "each executor lays the final result out in the declared column order")
     _s5_declared_order(program, res)
+    res.rule("C08-S6", "map_columns: deletions are applied to the input columns, before renaming")
+    _s6_map_columns_order(program, res)
